@@ -72,6 +72,41 @@ fn %(name)s() {
 ''' % dict(name=name, hl=hashlen, sl=saltlen)
 
 
+def h_from_string(name, hashlen, saltlen):
+    """PwHash::from_string behind the parser stub: every parsed record becomes a PwHash without panicking, and verifying
+    with it runs Argon2 with exactly the parsed costs / algorithm / salt (no truncation or wrap of m * 1024)"""
+    return rs.hdr(("barrier", "fmt"), extra=PARSE_STUB + A2_STUB) + r'''
+fn %(name)s() {
+    use crate::pwhash::*;
+    let pw: [u8; 5] = kani::any();
+    wit!(W_0, &pw);
+    unsafe { PPS.saltlen = %(sl)d; PPS.hashlen = %(hl)d; }
+    let r: Result<VecPwHash, crate::error::Error> = PwHash::from_string("x");
+    kani::cover!(r.is_ok(), "parsed");
+    assert!(r.is_ok(), "FROMSTRING_OK: every record the parser can return becomes a PwHash");
+    unsafe { wit!(W_1, &PPS.t.to_le_bytes()); wit!(W_2, &PPS.m.to_le_bytes()); }
+    let h = r.unwrap();
+    let v = h.verify(&pw.to_vec());
+    kani::cover!(v.is_ok(), "accept reachable");
+    unsafe {
+        let t = PPS.t as u64; let mb = (PPS.m as u64) * 1024;
+        let in_range = t >= 1 && mb >= 8192 && mb <= 4398046510080;
+        kani::cover!(in_range && PPS.m >= 4194304, "costs of 4 GiB and more reachable");
+        if in_range {
+            assert!(A2S.n == 1 && A2S.t == PPS.t && A2S.m == PPS.m && A2S.p == 1 && A2S.ty == PPS.alg, "FROMSTRING_COSTS: the PwHash carries exactly the parsed costs and algorithm (m KiB -> m * 1024 bytes without wrap-around)");
+            assert!(A2S.saltlen == %(sl)d && A2S.outlen == %(hl)d, "FROMSTRING_LENGTHS: ... and the decoded salt / hash lengths");
+            let mut i = 0; while i < %(sl)d { assert!(A2S.salt[i] == PPS.salt[i], "FROMSTRING_SALT: ... and the decoded salt"); i += 1; }
+            let mut same = true; i = 0; while i < %(hl)d { if A2S.out[i] != PPS.hash[i] { same = false; } i += 1; }
+            assert!(v.is_ok() == same, "FROMSTRING_VERDICT: verification accepts exactly when the recomputed hash equals the decoded hash");
+        } else {
+            assert!(v.is_err(), "FROMSTRING_RANGE: costs outside libsodium's ranges are refused at verification");
+        }
+    }
+    core::mem::forget(v);
+}
+''' % dict(name=name, hl=hashlen, sl=saltlen)
+
+
 def suites(tier, seed):
     src = rs.prelude() + rs.load("rng.rs") + BODY
     hs = []
@@ -81,8 +116,45 @@ def suites(tier, seed):
         n = "c10_str_verify_h%d_s%d" % (hl, sl)
         src += h_verify(n, hl, sl)
         hs.append(Harness(n, unwind=80, timeout=900, site="crypto_pwhash_str_verify", desc="decoded hash %d bytes, salt %d bytes (symbolic contents, costs, algorithm); Argon2 output symbolic" % (hl, sl), bounds={"hash_len": hl, "salt_len": sl}))
+    for hl, sl in ([(32, 16)] if tier == "quick" else [(32, 16), (16, 8), (64, 32)]):
+        n = "c10_from_string_h%d_s%d" % (hl, sl)
+        src += h_from_string(n, hl, sl)
+        hs.append(Harness(n, unwind=80, timeout=900, site="PwHash::from_string", desc="PwHash::from_string behind the parser stub, then verify: parsed costs (all 2^32 x 2^32), algorithm, salt and hash reach Argon2 unchanged", bounds={"hash_len": hl, "salt_len": sl}))
     return [Suite("C10", src, hs, features=["base64"], stubs=rs.stub_names(("barrier", "fmt"), extra=PARSE_STUB + A2_STUB),
-                  functions=["classic::crypto_pwhash::{crypto_pwhash_str_verify,crypto_pwhash_str_needs_rehash,convert_costs}"], assumptions=ASSUMPTIONS)]
+                  functions=["classic::crypto_pwhash::{crypto_pwhash_str_verify,crypto_pwhash_str_needs_rehash,convert_costs}", "pwhash::PwHash::{from_string,verify}"], assumptions=ASSUMPTIONS)]
+
+
+def replay_from_string(v, scratch, hl, sl):
+    """native: strings carrying the solver's costs and the cost boundaries (2^22 KiB = 4 GiB and up) are parsed by
+    PwHash::from_string and re-encoded; a panic, an Err, or a different string reproduces (no hashing involved)"""
+    import base64
+    w = v.get("witness", {})
+    wt = int.from_bytes(bytes((w.get("W_1") or [2, 0, 0, 0])[:4]), "little") or 2
+    wm = int.from_bytes(bytes((w.get("W_2") or [64, 0, 0, 0])[:4]), "little") or 64
+    b64 = lambda b: base64.b64encode(b).decode().rstrip("=")
+    salt = bytes(range(1, sl + 1)); hsh = bytes(range(100, 100 + hl))
+    costs = [(wt, wm), (2, 4194303), (2, 4194304), (2, 4194305), (3, 2**32 - 1), (2**32 - 1, 8), (1, 8)]
+    strs = ["$argon2id$v=19$m=%d,t=%d,p=1$%s$%s" % (m_, t_, b64(salt), b64(hsh)) for t_, m_ in costs]
+    main = r'''
+use dryoc::pwhash::*;
+fn main() {
+    let strs: Vec<&str> = vec![STRS];
+    let mut bad = false;
+    for s in strs {
+        let r = std::panic::catch_unwind(|| { let h: Result<VecPwHash, _> = PwHash::from_string(s); h.map(|h| h.to_string()) });
+        match r {
+            Err(_) => { println!("MISMATCH FROMSTRING panic while parsing {}", s); bad = true; }
+            Ok(Err(e)) => { println!("MISMATCH FROMSTRING valid string rejected: {} ({:?})", s, e); bad = true; }
+            Ok(Ok(t)) => { if t != s { println!("MISMATCH FROMSTRING round trip differs: {} -> {}", s, t); bad = true; } }
+        }
+    }
+    if bad { std::process::exit(1); }
+    println!("agree");
+}
+'''.replace("STRS", ", ".join('"%s"' % x for x in strs))
+    outs = runner.native_run(scratch, "c10", main, features=["base64"])
+    v["replay_input"] = {"strings": strs, "program": main}
+    return any(rc == 1 and "MISMATCH" in o for _, rc, o in outs), "; ".join("%s rc=%s %s" % (p, rc, o.strip()[-400:]) for p, rc, o in outs)
 
 
 def replay(v, scratch):
@@ -93,6 +165,8 @@ def replay(v, scratch):
     h = v["harness"]
     m = re.search(r"_h(\d+)_s(\d+)", h)
     hl, sl = (int(m.group(1)), int(m.group(2))) if m else (16, 16)
+    if "from_string" in h:
+        return replay_from_string(v, scratch, hl, sl)
     pw = b"hunter2"; salt = bytes(range(1, sl + 1))
     out = ctypes.create_string_buffer(hl)
     # libsodium's high-level API insists on 16-byte salts; use its argon2 core through crypto_pwhash when sl == 16
